@@ -8,7 +8,7 @@
    so the invariants are the very operators the trace clauses use. *)
 EXTENDS RobotWarehouse
 
-CONSTANTS MaxDepth,      \* depth bound on step_count (state constraint)
+CONSTANTS MaxDepth,      \* depth bound on step_count (guard of Next)
           StartRows,     \* agents start in StartRows \X StartCols
           StartCols,
           CarryCells,    \* cells on which agent 0 may already carry a shelf in the mid-game initial states
@@ -93,10 +93,10 @@ Step(a) ==
     /\ last' = [type |-> IF Done(s, a) THEN LAST ELSE MID, reward |-> o.n, a |-> a,
                 bad |-> { k \in Agents : ~LegalAg(s, k, a[k + 1]) },
                 pl |-> last.pl \/ last.type = LAST]                  \* post-terminal: the episode is over
-Next == \E a \in JointActions : Step(a)
+Next == s.step_count < MaxDepth /\ \E a \in JointActions : Step(a)      \* depth bound
 Spec == Init /\ [][Next]_vars
 
-Bounded == s.step_count <= MaxDepth
+Bounded == s.step_count <= MaxDepth                      \* an invariant, by the guard of Next
 
 (* ---------- properties ---------- *)
 (* C03 *) Protocol == (last.type = FIRST <=> s.step_count = 0) /\ last.type \in {FIRST, MID, LAST}
@@ -113,7 +113,7 @@ RawForwardDestroys(k) ==
 \* C05: an agent whose action is illegal keeps position, direction and load; nothing moves on its behalf;
 \* the episode continues unless the others collide or the time is up
 (* C05 *) InvalidNoEffect ==
-  [][ \A k \in last'.bad :
+  [][ ~last'.pl => \A k \in last'.bad :
         /\ APos(s', k) = APos(s, k) /\ ADir(s', k) = ADir(s, k) /\ ACar(s', k) = ACar(s, k)
         /\ \A j \in ShelvesOn(s, APos(s, k)) : SPos(s', j) = SPos(s, j)
         /\ (NA = 1 => (Config(s') = Config(s) /\ s'.request_queue = s.request_queue /\ last'.reward = 0
